@@ -162,13 +162,17 @@ def api_calls(tr, ix):
             continue
         if args[1] != args[1] or (args[2] is not None and args[2] != args[2]):
             continue
+        if api in STOCK_APIS and args[2] is not None and match_sync.carried_limit(ix, args[0], args[2]) != args[2]:
+            # base.round_price moved the limit: the API sizes the order at the caller's limit and the order carries the rounded one — two prices where the
+            # API-level model has one; such a call enters the world as its submissions (base level)
+            continue
         out.setdefault(a, []).append(c)
     return out
 
 
 def api_toks(ix, c, ids):
     api, args = c["api"], c["args"]
-    lim = args[2]
+    lim = match_sync.carried_limit(ix, args[0], args[2])       # base.round_price: the order carries the limit rounded down to the tick (model: roundPrice)
     tail = [str(int(lim is not None)), f2b(lim if lim is not None else 0.0), str(len(ids))] + [str(i) for i in ids]
     if api in STOCK_APIS:
         return ["K", api, str(ix.ids[args[0]]), f2b(float(args[1]))] + tail
